@@ -17,6 +17,7 @@ import (
 	"github.com/ipni/go-libipni/mautil"
 	"github.com/libp2p/go-libp2p/core/peer"
 	"github.com/multiformats/go-multiaddr"
+	"github.com/multiformats/go-varint"
 
 	"verifharness/vp"
 )
@@ -367,6 +368,33 @@ func checkForms(r *vp.Recorder) {
 				}
 			}
 			r.Violation(sig, key, fmt.Sprintf("ToURL(%s) = %q, want scheme=%s host=%s port=%s path=%q", f.ma, u.String(), f.scheme, f.host, f.port, f.path), nil)
+		}
+		// a legacy address as it travels: the bytes older publishers put into
+		// announce messages (protocol code 0x300200, a length, the path-escaped
+		// text), written out here by hand and decoded with NewMultiaddrBytes
+		if i := strings.Index(f.ma, "/httpath/"); i >= 0 && len(diffs) == 0 {
+			prefix, err := multiaddr.NewMultiaddr(f.ma[:i])
+			if err != nil {
+				continue
+			}
+			text := f.ma[i+len("/httpath/"):]
+			wire := append([]byte{}, prefix.Bytes()...)
+			wire = append(wire, multiaddr.CodeToVarint(0x300200)...)
+			wire = append(wire, varint.ToUvarint(uint64(len(text)))...)
+			wire = append(wire, text...)
+			wm, err := multiaddr.NewMultiaddrBytes(wire)
+			if err != nil {
+				r.Violation("form:legacy-wire-bytes-rejected", key, fmt.Sprintf("%x: %v", wire, err), nil)
+				continue
+			}
+			var wu *url.URL
+			if panicked, pmsg := vp.Guard(func() { wu, err = maurl.ToURL(wm) }); panicked || err != nil {
+				r.Violation("form:legacy-wire-bytes:error", key, fmt.Sprint(pmsg, err), nil)
+				continue
+			}
+			if wu.Scheme != f.scheme || !sameHost(wu.Hostname(), f.host) || wu.Port() != f.port || wu.Path != f.path {
+				r.Violation("form:legacy-wire-bytes:differs:chars="+changedChars(f.path, wu.Path), key, fmt.Sprintf("the legacy address %s decoded from its wire bytes %x converts to %q, want path %q", f.ma, wire, wu.String(), f.path), nil)
+			}
 		}
 	}
 }
